@@ -80,7 +80,35 @@ def _gen_core_units(g):
                        "paseto-core/src/paserk/pke.rs"])
 
 
-_reg(Group("core_units", gen=_gen_core_units))
+_reg(Group("core_units", gen=_gen_core_units, stubbing=True))
+
+def _gen_backend(files):
+    def gen(g):
+        g.encoded_files = []
+        g.note_repo_files(files)
+        import shutil, os
+        # shared generic harness code
+        dst = os.path.join(g.dir, "common")
+        if os.path.isdir(dst):
+            shutil.rmtree(dst)
+        shutil.copytree(os.path.join(kanirun.VERIF, "harness", "common"), dst)
+    return gen
+
+
+def _backend_files(crate):
+    import glob
+    return sorted(os.path.relpath(p, kanirun.REPO) for p in glob.glob(os.path.join(kanirun.REPO, crate, "src", "**", "*.rs"), recursive=True)) + [
+        "paseto-core/src/pae.rs", "paseto-core/src/version.rs", "paseto-core/src/key.rs"]
+
+
+_reg(Group("v4", gen=_gen_backend(_backend_files("paseto-v4")), stubbing=True))
+
+def _gen_json(g):
+    g.encoded_files = []
+    g.note_repo_files(["paseto-json/src/lib.rs", "paseto-core/src/validation.rs"])
+
+
+_reg(Group("json_units", gen=_gen_json))
 
 B64 = "base64::proofs::"
 
@@ -126,3 +154,25 @@ PROPS["C09"] = Prop(
     assumptions=["strings are modelled as arbitrary byte arrays viewed through from_utf8_unchecked (a superset of valid UTF-8; decode only uses as_bytes())",
                  "Kani/CBMC/CaDiCaL are sound for the MIR they are given"],
 )
+
+
+# ------------------------------------------------------------------------------------------------
+# C19
+# ------------------------------------------------------------------------------------------------
+def _c19_runner(tier, seed, only):
+    import c19
+    return c19.run(tier, seed, only)
+
+
+PROPS["C19"] = Prop(
+    "C19", [],
+    explanation="The feature flags are the symbolic variables. An extractor re-reads every Cargo.toml [features] table and every #[cfg] guard of paseto-v1..v4, paseto-core and paseto-json, together with what each guarded item references (optional crates, super:: imports, supertrait-required impls). z3 decides whether a closed feature set exists under which some referenced item or dependency is configured out (UNSAT = every subset resolves w.r.t. the extracted references); any model is replayed with cargo check. The solver then enumerates every distinct closed feature set and each (thorough) or a covering subset (quick) is built with cargo check, so extractor misses cannot hide a non-building configuration. Behavioural equality of reduced builds rests on the checked syntactic fact that no function or impl body contains a #[cfg]/cfg!: an operation that exists in a reduced build is the same code as in the full build.",
+    functions=["paseto-v{1,2,3,4}/Cargo.toml [features]", "paseto-v{1,2,3,4}/src/**: every #[cfg(feature=..)] item", "paseto-core (serde)", "paseto-json (claims)"],
+    bounds={"quick": "all 2^9 subsets per crate in the solver query; cargo check of the empty set, every single-feature closure and the full set",
+            "thorough": "all 2^9 subsets per crate in the solver query; cargo check of every distinct closed feature set (45 per RustCrypto crate)"},
+    outside=["references the syntactic extractor cannot see (macro-generated items, type inference through re-exports) — covered only by the enumerated builds",
+             "run-time behaviour of reduced builds beyond 'same code': no reduced-feature binary is executed",
+             "the aws-lc and libsodium crates (their features select the C library build, not Rust items)"],
+    models=["cargo's feature resolution modelled as: enabled set = closure of the selected set under the [features] edges; dep:x enabled iff some enabled feature lists it; x?/f active iff listed and x enabled"],
+    assumptions=["cargo check success == the crate builds for that feature set", "z3 (cross-checked with cvc5 on the same SMT-LIB2 text)"],
+    level="other", extra_runner=_c19_runner)
